@@ -20,5 +20,45 @@ CHECKS = {
         'input width is <= 12/14 bits; outputs compared with truth-table references. Held = no disagreement on what was enumerated.',
    note='Trusted: the truth-table references in vlib/catalog.py and the documented-domain readings listed under assumptions.',
    ref='DESIGN.md section 4 C08'),
+ 'C09': dict(level='exploration', engine='E2 sequential catalogue (vlib/seqcat.py) + reference state machines',
+   technique='lockstep reference-state-machine monitor over random duty-cycled control histories plus breadth-first walk of the real simulator state space',
+   text='Each sequential library block runs in the real simulator in lockstep with an independent pure-Python reference state machine: random control histories with long holds, bursts and '
+        'reset storms, and for small configurations a breadth-first walk over the real simulator state space applying every input vector from every reached state. Outputs compared after every edge '
+        '(and pre-edge for input-dependent outputs).',
+   note='Trusted: the reference machines in vlib/seqcat.py; undocumented input combinations (push+pop, shift both ways, double write to one address) are not applied.',
+   ref='DESIGN.md section 4 C09'),
+ 'C10': dict(level='exploration', engine='E2 sequential catalogue + plan generator for gated clock domains',
+   technique='runtime twin/reference monitor: gated and ungated copies of sequential blocks stepped under generated enable sequences, frozen-state and reference-step oracles per edge',
+   text='Generated designs place catalogue sequential blocks under clock drivers with enables (poked, external register, self-gating, GatedClock output; 1-3 domains, drivers at depth 1-3, multi-bit '
+        'enables). Per edge: if the enable read 0 every wire and state attribute of the domain is unchanged, otherwise it equals the reference step; other domains follow their own references; the '
+        'leaf-to-driver assignment is checked against the plan. Evidence counts edges with enable 0 and non-zero per enable kind.',
+   note='Trusted: reference machines of vlib/seqcat.py; nested domains follow their own nearest driver only.',
+   ref='DESIGN.md section 4 C10'),
+ 'C15': dict(level='exploration', engine='harness probe clockables + WaveDrom decoder',
+   technique='invariant-at-hook monitor: probe clockables before and after the Waveform record pre-edge wire values each cycle; recorder contents and decoded WaveDrom rendering must equal the probe log',
+   text='Generated recordings (widths 1-64, forced repeats, duplicates, port/wire aliases, clear(), zero cycles, split clk calls) are observed by harness probes that run in the clocking phase; '
+        'Waveform.getDict() and the decoded get_wavedrom() output must equal the probe log sample for sample.',
+   note='Trusted: the probe clockables see the same pre-edge values as the recorder (checked: probes placed before and after must agree, else inconclusive); the WaveDrom decoder written here.',
+   ref='DESIGN.md section 4 C15'),
+ 'C16': dict(level='exploration', engine='schedule generator + shadow models',
+   technique='runtime shadow-model monitor over generated control/handshake schedules (back-pressure, back-to-back beats, load while pending, reset/done mid-transfer)',
+   text='Axi2Reg and Reg2Axi run under generated schedules obeying the single environment assumption of the property (done only after a completed transfer); per cycle the READY/active, loaded/q, '
+        'VALID-hold, data, LAST, KEEP and sent clauses are checked against a shadow model.',
+   note='Trusted: the shadow models; VALID staying high after an acceptance is counted, not judged (the statement only forbids dropping it early).',
+   ref='DESIGN.md section 4 C16'),
+ 'C17': dict(level='exploration', engine='history monitor at the ready/valid boundaries + software 8N1 receiver',
+   technique='offline history checker (accepted vs delivered byte sequences, bounded progress) plus an independent software 8N1 receiver over the recorded line trace',
+   text='Serializer -> line -> clock recovery + deserializer, as wired in the HIL wrapper, driven with all 256 byte values and random sequences, producer gaps none/1/random, oblivious receiver pacing, '
+        'divider ratios 4..40 incl. odd and non-integer requests. Delivered sequence must equal accepted sequence within 16 bit periods per byte; a software receiver sampling mid-bit at the realised bit '
+        'period must recover the same bytes from the tx trace.',
+   note='Trusted: the software receiver; receiver ready gaps <= half a bit period (UART has no back-pressure); liveness restated as bounded progress.',
+   ref='DESIGN.md section 4 C17'),
+ 'C20': dict(level='exploration', engine='command stream generator + per-cycle trace oracle',
+   technique='offline trace checker over recorded strobe/handshake traces of generated command streams and response runs',
+   text='CMDRequest is fed generated command streams (I/value/O/K commands, 1-8 hex digits, random valid gaps, several wire widths); from per-cycle traces each strobe must pulse exactly once per command '
+        'with the transmitted number, K n; must give exactly n clock pulses, no other strobe may move. CMDResponse must emit "=", the value as the requested count of upper-case hex digits MSB first, "!" '
+        'under oblivious consumer pacing, within a progress bound.',
+   note='Trusted: the trace oracle; a strobe pulse is one contiguous high run inside the command window; CMDResponse size is a nibble count.',
+   ref='DESIGN.md section 4 C20'),
 }
 PENDING = {}
